@@ -22,9 +22,11 @@ let bytes_of_hex s =
 
 let () =
   let threads = ref [] and cpus = ref [] and chans = ref [] and lint = ref false
-  and lintchans = ref [] and evs = ref [] and enabled = ref [] and rawevs = ref [] and useraw = ref false in
+  and lintchans = ref [] and evs = ref [] and enabled = ref [] and rawevs = ref [] and useraw = ref false
+  and mdefs = ref [] in
   let reset () = threads := []; cpus := []; chans := []; lint := false; lintchans := []; evs := [];
-    enabled := []; rawevs := []; useraw := false in
+    enabled := []; rawevs := []; useraw := false; mdefs := [] in
+  let hexstr l = String.concat "" (List.map (fun z -> Printf.sprintf "%02x" (int_of_z z)) l) in
   try
     while true do
       let line = input_line stdin in
@@ -37,6 +39,12 @@ let () =
                    cs_cputrack = zi cput; cs_type = zi ty; cs_flags = zi fl; cs_init = vopt ini; cs_cpudef = vopt def } :: !chans
       | "L" :: l :: rest -> lint := bo l; lintchans := List.map ni rest
       | "M" :: ids -> enabled := List.map zi ids; useraw := true
+      | ["K"; th; ty; stack; title; labels] ->
+        (* mark definition of thread gindex th (lines come in gindex order, definitions in file order) *)
+        let ls = if labels = "-" then [] else
+            List.map (fun kv -> match String.split_on_char ':' kv with
+                | [v; l] -> (zi v, bytes_of_hex l) | _ -> failwith "bad label") (String.split_on_char ',' labels) in
+        mdefs := (int_of_string th, { md_type = zi ty; md_title = bytes_of_hex title; md_stack = bo stack; md_labels = ls }) :: !mdefs
       | ["R"; tm; who; m; c; v; payload] ->
         rawevs := (zi tm, ni who, zi m, zi c, zi v, bytes_of_hex payload, false, zi "0") :: !rawevs
       | ["R"; tm; who; m; c; v; payload; jumbo; aux] ->
@@ -58,19 +66,30 @@ let () =
           | _ -> EvBad (ni "99") in
         evs := ((zi tm, ni who), ev) :: !evs
       | ["end"] ->
-        let cs = if !useraw then mk_chans !enabled else List.rev !chans in
+        let nth = List.length !threads in
+        let defs_by_thread = List.init nth (fun g -> List.rev_map snd (List.filter (fun (t, _) -> t = g) !mdefs) |> List.rev |> List.rev) in
+        let defs_by_thread = List.map (fun l -> l) (List.init nth (fun g ->
+            List.map snd (List.filter (fun (t, _) -> t = g) (List.rev !mdefs)))) in
+        ignore defs_by_thread;
+        (match merge_threads (List.init nth (fun g -> List.map snd (List.filter (fun (t, _) -> t = g) (List.rev !mdefs)))) with
+         | None -> print_endline "err 13"
+         | Some ms ->
+        let cs = if !useraw then mk_chans !enabled @ mark_chans ms else List.rev !chans in
         let sx = { s_threads = List.rev !threads; s_cpus = List.rev !cpus; s_chans = cs; s_lint = !lint } in
-        let lc = if !useraw then lint_chans cs else !lintchans in
+        let lc = if !useraw then lint_chans (mk_chans !enabled) else !lintchans in
         let es = if !useraw then
-            List.rev_map (fun (tm, who, m, c, v, p, j, aux) -> ((tm, who), decode_full !enabled cs m c v p j aux)) !rawevs
+            List.rev_map (fun (tm, who, m, c, v, p, j, aux) -> ((tm, who), decode_all !enabled cs m c v p j aux)) !rawevs
           else List.rev !evs in
         (match run sx lc es with
          | Err e -> Printf.printf "err %d\n" (int_of_nat e)
          | Ok ls ->
            print_endline "ok";
+           List.iter (fun m ->
+               Printf.printf "MT %d %d %s\n" (int_of_z m.mt_type) (if m.mt_stack then 1 else 0) (hexstr m.mt_title);
+               List.iter (fun (v, l) -> Printf.printf "ML %d %d %s\n" (int_of_z m.mt_type) (int_of_z v) (hexstr l)) m.mt_labels) ms;
            List.iter (fun (tm, l) ->
                Printf.printf "P %d %d %d %d %d\n" (if l.l_cpu then 1 else 0) (int_of_nat l.l_row)
-                 (int_of_z l.l_type) (int_of_z tm) (int_of_z l.l_val)) ls);
+                 (int_of_z l.l_type) (int_of_z tm) (int_of_z l.l_val)) ls));
         print_endline "done";
         reset ()
       | _ -> ()
